@@ -1,12 +1,14 @@
 #!/bin/sh
-# refactor_run.sh <dir-with-r*.diff> : apply every behaviour-preserving diff of the directory together to /repo, run the quick
-# tier of all 18 checks, revert.  Any VIOLATION is a false alarm of the machinery.
+# refactor_run.sh <dir-with-r*.diff> : apply every behaviour-preserving diff of the directory together, run the quick tier of
+# all 18 checks, revert.  Any VIOLATION is a false alarm of the machinery.  With SEED_APPLY=<scratch worktree of /repo> the
+# diffs are applied there and the checks pointed at it (VERIF_REPO); otherwise /repo itself is used.
 D=$1
+R=${SEED_APPLY:-/repo}
 cd /verif
-mkdir -p .cache/evidence.keep && cp evidence/*.json .cache/evidence.keep/
-for f in $D/r*.diff; do git -C /repo apply $f || { echo "does not apply: $f"; git -C /repo checkout -- .; exit 2; }; done
-git -C /repo status --short | head -20
-for i in 01 02 03 04 05 06 07 08 09 10 11 12 13 14 15 16 17 18; do ./check C$i --tier ${TIER:-quick} 2>&1 | grep -E "VIOLATION|tier=|INFRA" | sed -E 's/corr_ops=.*evaluations/evaluations/'; done
-git -C /repo checkout -- .
-cp .cache/evidence.keep/*.json evidence/
-git -C /repo status --short
+rm -rf .cache/evidence.keep && cp -r evidence .cache/evidence.keep
+for f in $D/r*.diff; do git -C $R apply $f || { echo "does not apply: $f"; git -C $R checkout -- .; exit 2; }; done
+git -C $R status --short | wc -l
+for i in 01 02 03 04 05 06 07 08 09 10 11 12 13 14 15 16 17 18; do VERIF_REPO=$R ./check C$i --tier ${TIER:-quick} 2>&1 | grep -E "VIOLATION|tier=|INFRA" | sed -E 's/corr_ops=.*evaluations/evaluations/'; done
+git -C $R checkout -- .
+rm -rf evidence && mv .cache/evidence.keep evidence
+git -C $R status --short
